@@ -153,6 +153,8 @@ pub fn run(ctx: &Ctx) -> i32 {
                     check_all(&mut acc, &e, &ids, signers, "plain", &|| cid("asis"), true);
                     // later additions
                     check_all(&mut acc, &e.add_assertion("later", "added"), &ids, signers, "plain", &|| cid("later-assertion"), false);
+                    // one key leaving TWO valid signatures (a plain one and one with metadata): thresholds count signers, not signatures
+                    if signers & 1 == 1 && !meta { let twice = sign(&e, &ids[0], true); check_all(&mut acc, &twice, &ids, signers, "signed-twice-by-one-key", &|| cid("signed-twice"), true) }
                     // every obscuration pattern of the parts other than the signature assertions
                     let protected: HashSet<Digest> = e.assertions().iter().filter(|a| a.as_predicate().map(|p| bind::dg(&p)) == Some(M::Known(3).digest())).flat_map(|a| { let mut v = vec![a.digest().into_owned()]; if let Some(p) = a.as_predicate() { v.push(p.digest().into_owned()) } if let Some(o) = a.as_object() { v.extend(o.deep_digests()) } v }).collect();
                     let all: Vec<Digest> = { let mut v: Vec<Digest> = e.deep_digests().into_iter().filter(|d| !protected.contains(d) && *d != e.digest().into_owned()).collect(); v.sort(); v };
